@@ -407,7 +407,7 @@ def cases(draw):
 
 
 def checks(tier):
-    n = {"quick": 5000, "thorough": 100000}.get(tier, 10)
-    m = {"quick": 800, "thorough": 30000}.get(tier, 10)
+    n = {"quick": 5000, "thorough": 50000}.get(tier, 10)
+    m = {"quick": 800, "thorough": 8000}.get(tier, 10)
     return [Check("request_sequences", fn_sequence, strategy=cases(), examples=n),
             Check("image_layer_state", fn_image_layer, strategy=image_cases(), examples=m)]
